@@ -18,6 +18,7 @@ import (
 
 	"verifharness/core"
 	"verifharness/dump"
+	"verifharness/gen"
 	"verifharness/vl"
 )
 
@@ -198,13 +199,30 @@ func runC08(c *ctx) error {
 			if j == mergePos {
 				merged()
 			}
-			fmt.Fprintf(&b, "  %s: v%d\n", e.written, j)
+			switch {
+			case j%7 == 3:
+				// a variable written without a value (null): legal, the empty string; it keeps its place
+				fmt.Fprintf(&b, "  %s:\n", e.written)
+			case j%7 == 5:
+				fmt.Fprintf(&b, "  %s: ~\n", e.written)
+			default:
+				fmt.Fprintf(&b, "  %s: v%d\n", e.written, j)
+			}
 			wantEnv = append(wantEnv, e.canon)
 		}
 		if mergePos == len(entries) {
 			merged()
 		}
 		nested := c08Map(rng, 2+rng.Intn(10), 2)
+		if i%10 == 7 {
+			// nested to any depth: a chain of 28-80 levels whose keys are not in sorted order at any level
+			depth := 28 + rng.Intn(53)
+			for (depth-1)%3 == 2 {
+				depth++
+			}
+			nested = gen.DeepChain(depth).(*ordered.MapSA)
+			c.res.Hist("documents.deeply-nested-mapping")
+		}
 		nested.Delete("<<")
 		knownDoc := ""
 		if hasKeyDeep(nested, "<<") {
@@ -292,14 +310,14 @@ func runC08(c *ctx) error {
 						}
 					}
 					if cv, ok := s0.Get("custom_field"); ok {
-						if cm, ok := cv.(*ordered.MapSA); ok && !ordered.EqualSA(cm, jsonRetyped(nested)) {
+						if cm, ok := cv.(*ordered.MapSA); ok && !sameOrderedTree(cm, jsonRetyped(nested)) {
 							c.res.Fail(core.OracleFailure{What: "a mapping nested in an unknown field changed order or content (" + leg + ")", Input: desc, Got: vl.Enc(dump.Any(cm)), Want: vl.Enc(dump.Any(nested)), Known: legKnown})
 						}
 					}
 				}
 				if s1, _ := steps[1].(*ordered.MapSA); s1 != nil {
 					if uv, ok := s1.Get("unknown_kind_of_step"); ok {
-						if um, ok := uv.(*ordered.MapSA); ok && !ordered.EqualSA(um, jsonRetyped(nested)) {
+						if um, ok := uv.(*ordered.MapSA); ok && !sameOrderedTree(um, jsonRetyped(nested)) {
 							c.res.Fail(core.OracleFailure{What: "a mapping inside an unknown step changed order or content (" + leg + ")", Input: desc, Got: vl.Enc(dump.Any(um)), Want: vl.Enc(dump.Any(nested)), Known: legKnown})
 						}
 					}
@@ -320,6 +338,13 @@ func runC08(c *ctx) error {
 	c.res.ModelRequests = total
 	c.res.Mismatches = mm
 	return err
+}
+
+// sameOrderedTree: same keys, same values, same order at every depth. (ordered.Equal says the same, but takes time
+// exponential in the nesting depth — go-cmp calls each nested comparer twice to check its symmetry — so the deep
+// chains are compared on their encodings.)
+func sameOrderedTree(a, b *ordered.MapSA) bool {
+	return vl.Enc(dump.Any(a)) == vl.Enc(dump.Any(b))
 }
 
 func keysOfPairs(p [][2]string) []string {
